@@ -119,6 +119,58 @@ def _expand_once(prog, tu, d, stack, done_names, keep=()):
                 'staticLocal': False, 'staticStorage': False, 'fileScope': False, 'storage': 'none', 'sys': False,
                 'line': cnode.get('line', 0), '_param_of': H.name, '_param_index': i}
         binds.append(new_node({'k': 'DeclStmt', 'ch': [a] if a != -1 else [], 'decls': [decl]}))
+    # ---- parameters bound to &lvalue and never changed: *param IS that lvalue --------------------------
+    # (an out-parameter, a field handed to a "reset this string" helper): the dereferences are rewritten to the
+    # lvalue itself, so that rules which look for stores into CFG->field or into a caller's variable see them
+    def _clone(nid):
+        src_ = nodes[nid]
+        c_ = dict(src_)
+        c_['ch'] = [_clone(x) if x != -1 else -1 for x in src_.get('ch', [])]
+        i_ = nxt[0]
+        nxt[0] += 1
+        c_['_inl'] = H.name
+        nodes[i_] = c_
+        return i_
+
+    def _skip_casts(nid):
+        while nid in nodes and nodes[nid]['k'] in ('ImplicitCastExpr', 'ParenExpr', 'CStyleCastExpr') and nodes[nid].get('ch'):
+            nid = nodes[nid]['ch'][0]
+        return nid
+    for i, p in enumerate(h['params']):
+        if i >= len(args) or args[i] == -1:
+            continue
+        an = _skip_casts(args[i])
+        a_ = nodes.get(an)
+        if a_ is None or a_['k'] != 'UnaryOperator' or a_.get('op') != '&' or not a_.get('ch'):
+            continue
+        lv = _skip_casts(a_['ch'][0])
+        if nodes[lv]['k'] not in ('MemberExpr', 'DeclRefExpr', 'ArraySubscriptExpr'):
+            continue
+        newid = dmap[p['id']]
+        # the parameter itself must never be assigned or stepped in the helper
+        changed_ = False
+        for k in hn:
+            v = nodes[k + off]
+            if v['k'] in ('BinaryOperator', 'CompoundAssignOperator') and (v.get('op') == '=' or v['k'] == 'CompoundAssignOperator') \
+                    or (v['k'] == 'UnaryOperator' and v.get('op') in ('++', '--')):
+                t_ = nodes.get(_skip_casts(v['ch'][0]))
+                if t_ is not None and t_['k'] == 'DeclRefExpr' and t_.get('ref', {}).get('id') == newid:
+                    changed_ = True
+        if changed_:
+            continue
+        for k in hn:
+            v = nodes[k + off]
+            if v['k'] == 'UnaryOperator' and v.get('op') == '*' and v.get('ch'):
+                t_ = nodes.get(_skip_casts(v['ch'][0]))
+                if t_ is not None and t_['k'] == 'DeclRefExpr' and t_.get('ref', {}).get('id') == newid:
+                    c_id = _clone(lv)
+                    keep_ = {kk: v[kk] for kk in ('line', 'eline', 'col', '_chain') if kk in v}
+                    repl = dict(nodes[c_id])
+                    repl.update(keep_)
+                    repl['_inl'] = H.name
+                    repl['_deref_of_param'] = p['name']
+                    v.clear()
+                    v.update(repl)
     # ---- result variable -------------------------------------------------------------------------
     ret_ct = h.get('retCanon') or h.get('ret') or 'void'
     is_void = ret_ct.strip() == 'void'
